@@ -136,6 +136,18 @@ func (l *v01Log) count(kind, label string) int {
 	return n
 }
 
+func (l *v01Log) countConnLabel(kind string, conn int, label string) int {
+	l.mu.Lock()
+	defer l.mu.Unlock()
+	n := 0
+	for _, e := range l.evs {
+		if e.Kind == kind && e.Conn == conn && e.Label == label {
+			n++
+		}
+	}
+	return n
+}
+
 func (l *v01Log) countConn(kind string, conn int) int {
 	l.mu.Lock()
 	defer l.mu.Unlock()
@@ -209,6 +221,13 @@ type v01EnvCfg struct {
 	AuthHook func(token string)
 	// AuthDone, if set, is called after the verdict was logged, just before it is returned.
 	AuthDone func(token string)
+	// Connection-aware variants (the same credential string may be presented by several
+	// connections): conn is the index of the calling connection (by client address).
+	AuthHookC func(conn int, token string)
+	AuthDoneC func(conn int, token string)
+	// Verdict, if set, replaces the static token table: the verdict may depend on the
+	// connection and may change during the case. It is evaluated when the call returns.
+	Verdict func(conn int, auth string) bool
 }
 
 type v01Env struct {
@@ -243,14 +262,21 @@ func (a *v01Auth) Authenticate(addr net.Addr, auth string, tx uint64) (bool, str
 	if h := a.e.cfg.AuthHook; h != nil {
 		h(auth)
 	}
+	if h := a.e.cfg.AuthHookC; h != nil {
+		h(c, auth)
+	}
 	tok := auth
 	if i := strings.LastIndexByte(tok, '#'); i >= 0 {
 		tok = tok[:i]
 	}
 	ok := false
-	for _, g := range a.e.cfg.GoodTokens {
-		if g == tok && g != "" {
-			ok = true
+	if v := a.e.cfg.Verdict; v != nil {
+		ok = v(c, auth)
+	} else {
+		for _, g := range a.e.cfg.GoodTokens {
+			if g == tok && g != "" {
+				ok = true
+			}
 		}
 	}
 	// The verdict is logged before it is returned: anything the server does
@@ -258,6 +284,9 @@ func (a *v01Auth) Authenticate(addr net.Addr, auth string, tx uint64) (bool, str
 	a.e.log.add("AuthRet", c, auth, ok, "")
 	if h := a.e.cfg.AuthDone; h != nil {
 		h(auth)
+	}
+	if h := a.e.cfg.AuthDoneC; h != nil {
+		h(c, auth)
 	}
 	return ok, "id-c" + strconv.Itoa(c)
 }
